@@ -21,7 +21,7 @@ LD = np.longdouble
 TWO_PI = 2 * np.arctan2(LD(0), LD(-1))
 
 GETS = [1, 2, 3, 5]
-SET_T = [0.25, 7.0]
+SET_T = [0.25, 7.0, 1.0 / 3.0]          # 1/3 s is off every sample grid used here
 ADD_T = [0.0, 0.5]
 UPD = [4]
 
@@ -44,9 +44,24 @@ def _complex_fn(ts):
     return 0.5j * np.cos(3.0 * ts) + 0.125
 
 
+_DECOY_DONE = set()
+
+
+def _decoy_streams(rate):
+    """Deterministic process history: a stream with ANOTHER sample rate is asked for every request size this check
+    uses, before the stream under test exists (something memoised per request size at module level is then poisoned in
+    every process alike)."""
+    import setigen.voltage as sv
+    d = sv.DataStream(sample_rate=rate * 3.0 + 7.0, fch1=0.0, ascending=True, t_start=0.0, seed=1)
+    d.add_constant_signal(f_start=rate * 0.1, drift_rate=0.0, level=1.0)
+    for n in (1, 2, 3, 4, 5, 6, 7, 8, 9, 10, 13, 28, 33):
+        d.get_samples(n)
+
+
 def build_stream(cfg, twin_noise_only=False, cls=None, seed=None):
     import setigen.voltage as sv
     rate = cfg['rate']
+    _decoy_streams(rate)
     s = sv.DataStream(sample_rate=rate, fch1=cfg['fch1'], ascending=cfg['asc'], t_start=cfg['t_start'],
                       seed=cfg['seed'] if seed is None else seed)
     add_sources(s, cfg, twin_noise_only)
@@ -462,7 +477,7 @@ def run(ctx):
     N = 10 if T else 8
     cfgs = []
     for rate in ((1e3, 48e3, 3e9) if T else (1e3, 3e9)):
-        for t0 in ((0, 1.5, 100.25) if T else (0, 100.25)):
+        for t0 in ((0, 1.5, 100.25, 0.0123456789) if T else (0, 100.25, 0.0123456789)):
             for asc in (True, False):
                 for src in SOURCES:
                     for seed in (ctx.seed + 5, ctx.seed + 6):
